@@ -488,6 +488,11 @@ def overriders(I, static_cls, fi):
 
 
 def call_repo(I, st, fi, args, kwargs, node, is_property=False, static=False):
+    if fi.qualname == "basana.core.dispatcher.gather_no_raise":
+        # TRUSTED model of the two-line helper: asyncio.gather over await_no_raise(x) -- every awaitable is awaited, an
+        # Exception of one of them is logged and swallowed (helpers.no_raise), only cancellation propagates
+        I.drops.add("gather_no_raise(*xs) modelled as asyncio.gather(*xs) with every child's Exception swallowed (trusted)")
+        return Val("Awaitable", ("gather", list(args), Val("Bool", TRUE)))
     if fi.qualname == "basana.core.dt.utc_now":
         # trusted: the wall clock, read through the monotone ghost clock (assumption: it never goes backwards)
         from . import asyncio_model
@@ -532,6 +537,10 @@ def call_repo(I, st, fi, args, kwargs, node, is_property=False, static=False):
     if fi.is_generator and not fi.is_ctxmgr:
         argmap = bind_args(I, st, fi, args, kwargs, node, c)
         return Val("Gen", (fi, argmap))
+    if fi.is_ctxmgr:
+        # (also @asynccontextmanager: an async generator used in `async with`)
+        argmap = bind_args(I, st, fi, args, kwargs, node, c)
+        return Val("CtxMgr", (fi, argmap))
     if fi.is_async:
         argmap = bind_args(I, st, fi, args, kwargs, node, c)
         if c is not None and c.requires and not c.inline and st.spec_depth == 0 and st.frame.func is not None:
